@@ -35,12 +35,16 @@ UDP_GEN_CFG = ["SPECIFICATION GSpec", "CONSTANTS", "  GKinds <- P_Kinds", "  Max
                "  MaxGenuine = {mg}", "INVARIANT Emit", "CHECK_DEADLOCK FALSE"]
 NINE = '{"genuine", "srcIp", "srcPort", "id", "qname", "qcase", "qtype", "extraQ", "garbage", "noQ"}'
 ALL1 = ('{"genuine", "srcIp", "srcPort", "id", "qname", "qcase", "qtype", "qclass", "extraQ", "garbage", "noQ", '
-        '"garbageOff"}')
+        '"garbageOff", "queryPort"}')
 TWOQ = '{"genuine", "id", "qname", "qcase", "extraQ", "noQ", "subsetQ"}'
 SIX = '{"genuine", "srcPort", "id", "qcase", "extraQ", "garbage"}'
 # (kinds, max schedule length, questions in the request, copies of the genuine reply)
-UDP_GEN_QUICK = [(NINE, 4, 1, 1), (TWOQ, 3, 2, 2)]
-UDP_GEN_THOROUGH = [(ALL1, 4, 1, 2), (NINE, 5, 1, 1), (TWOQ, 4, 2, 2)]
+# "not a DNS response" shapes (undecodable, too short, the request reflected with QR = 0) from the
+# server, from another address and from another port, before / around the genuine reply
+NOTRESP = ('{"genuine", "id", "garbage", "garbageOff", "garbagePort", "short", "shortOff", "shortPort", '
+           '"queryCopy", "queryOff", "queryPort"}')
+UDP_GEN_QUICK = [(NINE, 4, 1, 1), (TWOQ, 3, 2, 2), (NOTRESP, 3, 1, 1)]
+UDP_GEN_THOROUGH = [(ALL1, 4, 1, 2), (NINE, 5, 1, 1), (TWOQ, 4, 2, 2), (NOTRESP, 4, 1, 1)]
 
 RETX_GEN_CFG = ["SPECIFICATION GSpec", "CONSTANTS", "  GKinds <- P_Kinds", "  L1 = {l1}", "  L2 = {l2}", "  L3 = {l3}",
                 "  NQ = {nq}", "INVARIANT Emit", "CHECK_DEADLOCK FALSE"]
@@ -63,7 +67,7 @@ def _req_of(why):
 
 def _run_gen(wd, name, extends, defs, cfg):
     tla, cfgp = vlib.wrapper(wd, name, extends, defs, cfg)
-    cases, st = vlib.gen(tla, cfgp, wd, workers=8, timeout=1500)
+    cases, st = vlib.gen(tla, cfgp, wd, workers=6, timeout=1500)
     if not cases or st is None:
         raise vlib.ToolError(f"generator {name} produced no cases")
     vlib.log(f"[c16] {name}: {len(cases)} cases")
@@ -137,7 +141,7 @@ def run(res, tier, seed):
         mcs += [("MC_UdpMatch", "MC_UdpMatch_retx6.cfg"), ("MC_Mux", "MC_Mux_big.cfg")]
     for mod, cfg in mcs:
         # the one-transmission configuration cannot retransmit by construction
-        st = vlib.mc(os.path.join(S, mod + ".tla"), os.path.join(S, cfg), wd, workers=8, timeout=1500,
+        st = vlib.mc(os.path.join(S, mod + ".tla"), os.path.join(S, cfg), wd, workers=6, timeout=1500,
                      allow_zero=("Retransmit",) if cfg == "MC_UdpMatch.cfg" else ())
         res.add_mc(cfg[:-4], st)
 
